@@ -151,6 +151,8 @@ def check(run):
     c07._storage(c06.FilterRun(run, {"COUNT", "PARALLEL"}, {"COUNT": "FORMULA", "PARALLEL": "FORMULA"}), prog, cls, False)
     from .copylib import copy_protocol
     copy_protocol(run, prog, cls)           # a copied / unpickled reservoir keeps its probability, size and contents
+    from .common import ctor_wiring
+    ctor_wiring(c06.FilterRun(run, {"CTOR"}, {"CTOR": "FORMULA"}), prog, cls, "CTOR")   # size / probability as configured, per object
     # ---- AGREE: TreeStorage relies on p >= 1 ---------------------------------------------------
     ts = prog.find_class("TreeStorage")
     run.need(ts is not None, "anchor class TreeStorage vanished")
